@@ -260,23 +260,16 @@ def run(ctx):
     with ctx.obligation("C06.7", "type dispatch table and _type tags", floor=8) as o:
         rf = prog.func("JointDegreeFactory.resolve_joint_degree")
         tparam, pparam = rf.params[0], rf.params[1]
-        arms = {}
-        node = rf.body[0] if rf.body else None
-        shape = True
-        while isinstance(node, ast.If):
-            r = rules.compare_with_pivot(node.test, lambda x: txt(x) == tparam)
-            mem = rules.enum_member(r[1], "JointDegreeType") if r and r[0] == "==" else None
-            if mem is None or len(node.body) != 1 or not isinstance(node.body[0], ast.Return):
-                shape = False
-                break
-            arms[mem] = node.body[0]
-            node = node.orelse[0] if len(node.orelse) == 1 else None
-        if not shape or not arms:
-            o.undecided("resolve_joint_degree is not an if/elif chain on the type", rf)
+        arms, complete = rules.dispatch_arms(prog, rf, tparam, "JointDegreeType")
+        if not arms or not any(m in arms for m in LOADERS):
+            o.undecided("resolve_joint_degree is not a recognised dispatch on the type (if/elif chain, early returns, match, or table lookup)", rf)
         else:
             for mem, cn in LOADERS.items():
                 if mem not in arms:
-                    o.violated(rf, rf.node, f"no arm for JointDegreeType.{mem}")
+                    if complete:
+                        o.violated(rf, rf.node, f"no arm for JointDegreeType.{mem}")
+                    else:
+                        o.undecided(f"no arm found for JointDegreeType.{mem}, but the dispatch is only partly understood", rf)
                     continue
                 b = match(pat("$cls($p)"), arms[mem].value)
                 if b is None:
